@@ -158,6 +158,10 @@ theorem step_flat (m : Model) (w : W) (e : Op) (hw : Flat w) (he : FlatOp e) : F
         cases hc'
         exact fun s hs => hw 1 cs1 h1 s (mem_markRan s cs1 hs)
     | (n + 2) => exact absurd hc (by simp [W.cell])
+  | unsubReapp j s =>
+    cases m with
+    | fixed => exact (hw.of_cellLe (unsub_cellLe (.multi j) w)).of_cellLe (unsub_cellLe s _)
+    | code => exact hw.of_cellLe (unsub_cellLe (.multi j) w)
 
 theorem run_flat (m : Model) : ∀ (es : List Op) (w : W), Flat w → (∀ e ∈ es, FlatOp e) → Flat (run m w es).1
   | [], _, hw, _ => hw
